@@ -7,7 +7,10 @@ C09 real-code runners (asynchronous side + scripted engines).  Case kinds (see p
             With `proxy` (default) the SSLObject the transport uses is the real one behind a transparent recording proxy
             (RecordingSSLObject): the log of its answers is what the Lean model is fed with.
   close     the same session without a cut, the operation under observation is `aclose()`; peer behaviours `responsive`,
-            `silent` (never answers: shutdown timeout), `closed` (the peer's stream ended before).
+            `silent` (never answers: shutdown timeout), `closed` (the peer's stream ended before), `dropped`.  With `reads`
+            only that many receive calls are made first (`bufsize`, `method`): application data received from the peer is still
+            unread at close time; `burst` / `chunks` steer what the wrapped transport delivers per read (lines `pre-plain`,
+            `unread-in-bio`).
   script    a scripted engine instead of OpenSSL: a harness `ssl_context`-like object whose `wrap_bio` returns a ScriptedSSLObject,
             over a ScriptedTransport; both answer from one shared response list written in the model's own line syntax.
   syncscript  the blocking `SSLStreamTransport` over a harness context whose `wrap_socket` returns a scripted SSL socket.
@@ -160,11 +163,13 @@ def trace_lines(ops: list[tuple[str, list[tuple], str, bool]]) -> tuple[list[str
     model: list[str] = []
     real: list[str] = []
     problems: list[str] = []
+    # what sits in the outgoing BIO survives the end of an API call (no flush after a read: e.g. the alert OpenSSL writes
+    # when `read` meets the ragged EOF is sent by the NEXT operation that flushes — aclose())
+    pend_alert = 0
+    pend = 0
     for name, seg, res, _ in ops:
         model.append("op " + name)
         real.append("op " + name)
-        pend_alert = 0
-        pend = 0
         i = 0
         while i < len(seg):
             ev = seg[i]
@@ -253,7 +258,8 @@ def run_session(case: dict) -> tuple[list[str], dict[str, Any]]:
                    reply_close=not (is_close and peer_mode == "dropped"))
     trace: list[tuple] = []
     t = TracedCut(peer, cut, int(case.get("frag", 0)), max_frag=int(case.get("max_frag", 4096)), trace=trace,
-                  eof_after_peer=not is_close or peer_mode in ("closed", "dropped"))
+                  eof_after_peer=not is_close or peer_mode in ("closed", "dropped"),
+                  burst=bool(case.get("burst", False)), chunks=case.get("chunks"))
     lines: list[str] = []
     ops: list[tuple[str, list[tuple], str, bool]] = []
     plain = bytearray()
@@ -311,15 +317,32 @@ def run_session(case: dict) -> tuple[list[str], dict[str, Any]]:
                     term += 1
             lines.append("plain " + core.hexs(bytes(plain)))
         else:
-            # read what the peer sent first (if anything), so that the close starts from a quiet connection
-            for _ in range(len(recs) if recs else 0):
+            # read what the peer sent first (if anything), so that the close starts from a quiet connection — or, with `reads`,
+            # make only that many receive calls (of `bufsize` bytes): application data received from the peer is still UNREAD
+            # (in the incoming BIO, inside the SSL object, or in flight) when aclose() is called
+            reads = case.get("reads")
+            n_reads = (len(recs) if recs else 0) if reads is None else int(reads)
+            rsize = int(case.get("bufsize", 65536)) if reads is not None else 65536
+            rmeth = method if reads is not None else "recv"
+            for _ in range(n_reads):
                 i0 = len(trace)
                 try:
-                    d = await tls_tr.recv(65536)
+                    if rmeth == "recv_into":
+                        buf = bytearray(rsize)
+                        nb = await tls_tr.recv_into(buf)
+                        d = bytes(buf[:nb])
+                    else:
+                        d = await tls_tr.recv(rsize)
                 except Exception as e:  # noqa: BLE001
-                    ops.append(("recv", seg_from(i0), res_of(e), False))
+                    ops.append((rmeth, seg_from(i0), res_of(e), False))
+                    lines.append("pre exc:" + kind(e))
                     break
-                ops.append(("recv", seg_from(i0), res_of(None, d, is_recv=True), False))
+                ops.append((rmeth, seg_from(i0), res_of(None, d, is_recv=True), False))
+                plain.extend(d)
+            if reads is not None:
+                lines.append("pre-plain " + core.hexs(bytes(plain)))
+                rb = getattr(tls_tr, "_read_bio", None)
+                lines.append(f"unread-in-bio {getattr(rb, 'pending', '?')}")
             if peer_mode == "silent":
                 peer.silent = True
             if peer_mode == "closed" and case.get("pre_eof", True):
